@@ -56,6 +56,8 @@ for k, v in merged('/verif/mutants/results-seeded-round12.txt').items():
     seed[k] = v
 for k, v in merged('/verif/mutants/results-seeded-round13.txt').items():
     seed[k] = v
+for k, v in merged('/verif/mutants/results-seeded-round14.txt').items():
+    seed[k] = v
 
 out = []
 out.append("## Appendix D. Sensitivity results: own mutants and independently seeded changes\n")
@@ -108,7 +110,7 @@ for k in ids:
         note = short(oc.replace('\n', ' '), 330)
     out.append(f"| `{k}` | {needs} | {', '.join(hit) or '-'} | {', '.join(miss) or '-'} | {note} |")
 out.append("")
-out.append(f"{n_seed_caught} of {n_seed} seeded changes are reported by at least one check, {n_seed_own} of them by the check of the very property they were written to break (final machinery, quick tier). Thirty-nine changes were first missed, or not detected for an infrastructure reason, and each miss was answered by widening a generator or correcting an oracle - never by special-casing the change:\n")
+out.append(f"{n_seed_caught} of {n_seed} seeded changes are reported by at least one check, {n_seed_own} of them by the check of the very property they were written to break (final machinery, quick tier). Forty-two changes were first missed, or not detected for an infrastructure reason, and each miss was answered by widening a generator or correcting an oracle - never by special-casing the change:\n")
 out.append("""* `C01` (swap refunds surplus coins it had priced on): the swap generators never attached a coin of the pair's *other* native denom of reserve-like size -> `extra_ask_16` class in every swap profile.
 * `C14` (router `Receive` re-enters `execute` with the envelope's sender): the caller matrix only sent internal messages directly -> every pair/router message is also smuggled through the public cw20 `Receive` entry with a spoofed envelope sender.
 * `C07b` (cw20-entered route without `to` pays the token contract): the C07 frame wrongly allowed the addressed token contract's own balances to change -> removed.
@@ -135,6 +137,7 @@ out.append("""* `C01` (swap refunds surplus coins it had priced on): the swap ge
 * Round 12 (ten properties; the hints listed what a tester who already varies amounts, actors, spellings, coin lists and administration would STILL hold fixed) was the most productive round: five of ten first missed. `C02p` (a `to` naming the pair's LP token or one of its cw20 asset contracts is silently dropped and the trader paid) and `C05p` (a provision whose `receiver` is the pair itself is minted to the caller): receivers were always absent, accounts or malformed strings -> contracts of the pair's household are now receivers of swaps and provisions. `C11p` (the bound cast to `i128`, so every `minimum_receive >= 2^127` wraps negative and is always met): bounds never exceeded 2^100 - **and the oracle of C11 contained the very same cast** (`g < m as i128`), besides an overflowing `m + 1` in its classification; both corrected, bounds now span the full 128 bits. `C17p` (a pair that holds liquidity ignores decimals updates): C17's factory-only worlds never fund a pair -> new suite `C17/live_pairs`, trading histories with owner administration interleaved, judged after every successful owner operation. `C20p` (refunds to a holder that is a contract go out as cw20 `Send`, which a contract without a `Receive` entry cannot accept): every LP holder was an account -> LP transfers and provision receivers now include the forwarding proxy and the factory. `C19p` (the registry key of a pair whose identifiers are prefix-related depends on the order its assets are named in) is reported by C16 at function level; C19's walker - which, as in the statement, continues after each pair *as returned* - still visits every pair once, and the reversed cursor is probed but by design only observed.
 * The same round prompted one widening that no seeded change had asked for yet: hook swaps and withdrawals delivered through `SendFrom` (every actor grants the next one an allowance on every asset and LP token in half of the worlds; the owner's balance pays, the spender is the pair's `sender`). It needed the settlement, ledger and withdrawal oracles to distinguish payer from sender, and produced three false alarms of the harness on the unchanged tree while it was being built (two places that decoded `Send` but not `SendFrom`, and the ledger rule 'the receiver's balance only grows' when the allowance owner is also the receiver) - all corrected before the change was committed.
 * Round 13 (eight properties, same kind of hints): `C14q` (the factory's `migrate` entry hands ownership to the chain-level admin when the recorded owner is the account that instantiated the factory: the admin and the instantiating owner were one account in every world -> half of C14's worlds give the factory an admin of its own, which migrates it in some states and is probed as a caller of every message) and `C16q` (the cw20 `TokenInfo` answer is parsed leniently, so a contract that reports no `decimals` is accepted with decimals 0: every non-token contract of the universe answered no TokenInfo at all -> the factory worlds hold one that answers it without `decimals`). The other six were reported at once: reserves cached by the withdraw hook and consumed by a later native swap (`C01q`), a lossy precision round trip on refunds (`C04q`), native/native reserves read by position from `AllBalances` (`C06q`, reachable because pairs already received stray coins), a payout to the token's own contract turned into a burn (`C07q`, reachable because swap receivers include the pair's token contracts since round 12), a denom-shape guard treating short or long denoms as cw20 (`C09q`), and a 64-bit truncation of the guard's decimals (`C10q`).
+* Round 14 (eight properties, the hints now listing everything rounds 1-13 had added): `C16r` (the pair's `migrate` clears the creation whitelist of a funded pair, so the factory's record and the pair's self-description part) and `C17r` (the pair accepts the decimals update from the factory's owner too; C14's matrix reports that at once, C17 did not): the factory-only worlds of C16 / C17 never fund a pair and no history had the owner address a pair directly -> `live_pairs` now compares the whole record, is registered under C16 as well, and owner administration includes the direct message. `C19r` (a response-size budget over whitelist addresses drops the pair that crosses it, so a pair with more than 128 whitelisted addresses ends every walk): whitelists held at most four addresses -> every 13th pair of a C19 registry gets 129-168. `C14r` is once more a change filed under C14 that C02 reports (a direct `Swap` naming a cw20 asset, accepted when some attached coin carries the same amount): the pair's `Swap` entry is public, C14's matrix has no cell for it. The other four were reported at once (a fixed-point 'equals 100%' test on the hook amount, `C02r`; the locked LP amount scaled by the LP token's decimals, `C05r`; the trailing assertion cut off by a step limit on 5-hop routes, `C11r`; native/native reserves returned in the bank's alphabetical order, `C20r`).
 * **One seeded change is not reported by any check: `C14h`.** It adds new factory messages (an owner-appointed operator role) and its flaw is reachable only through them. Generated inputs are drawn from the messages that exist in the unchanged tree; an entry point that a change introduces is outside every generated domain. This is a limit of the technique as set up here (section 8), not a blind spot a wider generator could close without knowing the change.
 * Three round-6 changes (`C01f`, `C02f`, `C03f`) independently made asset equality ignore the asset kind, and `C04f` relied on a holder burning LP directly at the token contract - shapes that were only in the generators because earlier rounds had put them there (denoms spelled like token addresses after `C17c`/`C12c`; the direct LP burn was added minutes before `C04f` arrived).
 * own mutants of C13 / C14, see D.1.
@@ -145,7 +148,7 @@ out.append("""* `C01` (swap refunds surplus coins it had priced on): the swap ge
 
 **Second driver.** Ten seeded changes of ten different properties were also run with the proptest stage switched off (`HV_ONLY_FUZZ=1`, thorough tier, `mutants/results-fuzz-only.txt`): the coverage-guided libFuzzer stage alone, started from the replay-tier tapes plus four random tapes, reported all ten (`C02c`, `C04b`, `C11b`, `C13b`, `C08b`, `C18b`, `C06`, `C15c`, `C20`, `C16c`) in 76-146 s each.
 
-What the seeded changes taught about this technique here: the oracles were almost never the weak point (all misses but one were *generator* blind spots - the exception is `C11p`, where the oracle shared the seeded slip -: an input shape, an entry path, an operation kind or an identifier alphabet that was not produced), which is why later rounds - asked to differ from the earlier ones, and in round 4 steered to untouched code locations - kept being valuable: the miss rate was 2/20, 4/20 (one of them infrastructure), 2/20, 3/20, 1/20, 5/18, 5/18, 3/20, 3/18, 2/10, 2/8, 5/10 and 2/8 in rounds 1 to 13 (the cross-contract and the state/sequence rounds were the most productive ones since round 2), and two of the three round-4 misses were still reported by the check of a *neighbouring* property (C13 for `C02d`, C17 for `C16d`).
+What the seeded changes taught about this technique here: the oracles were almost never the weak point (all misses but one were *generator* blind spots - the exception is `C11p`, where the oracle shared the seeded slip -: an input shape, an entry path, an operation kind or an identifier alphabet that was not produced), which is why later rounds - asked to differ from the earlier ones, and in round 4 steered to untouched code locations - kept being valuable: the miss rate was 2/20, 4/20 (one of them infrastructure), 2/20, 3/20, 1/20, 5/18, 5/18, 3/20, 3/18, 2/10, 2/8, 5/10, 2/8 and 3/8 in rounds 1 to 14 (the cross-contract and the state/sequence rounds were the most productive ones since round 2), and two of the three round-4 misses were still reported by the check of a *neighbouring* property (C13 for `C02d`, C17 for `C16d`).
 """)
 text = "\n".join(out)
 s = open('/verif/DESIGN.md').read()
